@@ -28,7 +28,7 @@ ASSUMPTIONS = [
     'the reference event list is an executable reading of the docstrings of pydoctor/visitor.py',
 ]
 FLOOR = {'quick': 5000, 'thorough': 50000}
-SPACE = {'quick': 'trees<=4 nodes (9 shapes) x 5^n actions x 20 timing sets x {walkabout, walk}; builder: alphabet x 6 placements',
+SPACE = {'quick': 'trees<=4 nodes (9 shapes) x 5^n actions x 20 timing sets x {walkabout, walk}; builder: alphabet x 6 placements, builder at rest AND the events seen by a recording extension of each timing obey stack discipline',
          'thorough': 'trees<=5 nodes (23 shapes) x 5^n actions x 20 timing sets x {walkabout, walk}; builder: alphabet x 6 placements + all ordered pairs of the collision subset'}
 
 ACTS = [None, 'SkipChildren', 'SkipSiblings', 'SkipNode', 'SkipDeparture']
@@ -289,6 +289,22 @@ def builder_case(src: str) -> Optional[str]:
         defaultBuilder = B
 
     s = pd.new_system(systemcls=Sys)
+    # one recording extension per timing on the REAL module visitor: what an extension that keeps its own stack of nodes would see
+    from pydoctor import extensions, astutils
+    logs: Dict[str, List[Tuple[str, int, str]]] = {}
+    for when in astutils.NodeVisitorExt.When:
+        def mk(when: Any) -> Any:
+            log = logs.setdefault(when.name, [])
+
+            class Rec(extensions.ModuleVisitorExt):  # type: ignore
+                def unknown_visit(self, node: Any) -> None:
+                    log.append(('enter', id(node), type(node).__name__))
+
+                def unknown_departure(self, node: Any) -> None:
+                    log.append(('leave', id(node), type(node).__name__))
+            Rec.when = when
+            return Rec
+        s._astbuilder_visitors.append(mk(when))
     b = s.systemBuilder(s)
     b.addModuleString('', 'pk', is_package=True)
     b.addModuleString(src, 'm', 'pk')
@@ -300,6 +316,17 @@ def builder_case(src: str) -> Optional[str]:
     for bb in captured:
         if bb._stack != [] or bb.current is not None or bb.currentMod is not None:
             return f'stack={[type(o).__name__ for o in bb._stack]} current={bb.current!r} currentMod={bb.currentMod!r}'
+    for when, log in logs.items():
+        stack: List[Tuple[int, str]] = []
+        for ev, nid, tn in log:
+            if ev == 'enter':
+                stack.append((nid, tn))
+            elif not stack or stack[-1][0] != nid:
+                return f'ext-events:{when}: leaves {tn} while the innermost entered node is {stack[-1][1] if stack else None}'
+            else:
+                stack.pop()
+        if stack:
+            return f'ext-events:{when}: entered and never left: {[t for _, t in stack][:4]}'
     return None
 
 
